@@ -444,3 +444,77 @@ writer_harness!(#[kani::unwind(40)]
 	assert!(bw.buffer().is_empty() && unsafe { FILE_BYTES } == 14, "U51.flush_to_file.nothing_of_the_record_stays_buffered");
 	kani::cover!(r.is_some(), "reached");
 });
+
+// ================================================================== U61: Log::clean_logs reclaims enacted log files oldest first
+// A crash between two truncations must leave a *suffix* of the enacted log files on disk: replay numbers records
+// consecutively from the first file it finds, so an older file that survives while a newer one is already empty puts a hole
+// in front of every synced, not yet enacted record behind it -- and replay discards everything after a hole.
+// File::set_len / sync_all / seek (ftruncate, fsync, lseek: foreign) are replaced by recorders keyed by descriptor;
+// sync_all may fail at an arbitrary call (the point at which the process stops).
+pub(crate) static mut TRUNC_FDS: [i32; 4] = [-1; 4];
+pub(crate) static mut TRUNC_N: usize = 0;
+pub(crate) static mut SYNC_ALL_N: usize = 0;
+pub(crate) static mut SYNC_ALL_FAIL_AT: usize = usize::MAX;
+pub(crate) fn stub_set_len(f: &std::fs::File, size: u64) -> std::io::Result<()> {
+	use std::os::fd::AsRawFd;
+	unsafe {
+		if TRUNC_N < 4 {
+			TRUNC_FDS[TRUNC_N] = f.as_raw_fd();
+		}
+		TRUNC_N += 1;
+	}
+	assert!(size == 0, "U61.clean_logs.reclaimed_files_are_emptied");
+	Ok(())
+}
+pub(crate) fn stub_file_seek(_f: &mut std::fs::File, _pos: std::io::SeekFrom) -> std::io::Result<u64> {
+	Ok(0)
+}
+pub(crate) fn stub_sync_all(_f: &std::fs::File) -> std::io::Result<()> {
+	unsafe {
+		SYNC_ALL_N += 1;
+		if SYNC_ALL_N - 1 == SYNC_ALL_FAIL_AT {
+			return Err(std::io::Error::from_raw_os_error(5))
+		}
+	}
+	Ok(())
+}
+writer_harness!(#[kani::unwind(6)] #[kani::stub(std::fs::File::set_len, stub_set_len)] #[kani::stub(std::fs::File::sync_all, stub_sync_all)] #[kani::stub(<std::fs::File as std::io::Seek>::seek, stub_file_seek)] #[kani::stub(Log::drop_log, stub_drop_log2)] #[kani::stub(<std::os::fd::OwnedFd as std::ops::Drop>::drop, stub_owned_fd_drop)] u61_clean_logs_truncates_oldest_first, {
+	use std::os::fd::FromRawFd;
+	let log = std::mem::ManuallyDrop::new(mk_log());
+	let (a, b, c): (u32, u32, u32) = (kani::any(), kani::any(), kani::any());
+	kani::assume(a != b && a != c && b != c);
+	// three enacted log files wait for reclamation, oldest first (descriptors 3, 4, 5 stand for the files)
+	log.cleanup_queue.write().push_back((a, unsafe { std::fs::File::from_raw_fd(3) }));
+	log.cleanup_queue.write().push_back((b, unsafe { std::fs::File::from_raw_fd(4) }));
+	log.cleanup_queue.write().push_back((c, unsafe { std::fs::File::from_raw_fd(5) }));
+	let max_count: usize = kani::any();
+	kani::assume(max_count <= 4);
+	let fail_at: usize = kani::any();
+	unsafe {
+		TRUNC_N = 0;
+		TRUNC_FDS = [-1; 4];
+		SYNC_ALL_N = 0;
+		SYNC_ALL_FAIL_AT = fail_at;
+		DROPPED_N = 0;
+	}
+	let res = ok(log.clean_logs(max_count));
+	let n = unsafe { TRUNC_N };
+	let want = if max_count < 3 { max_count } else { 3 };
+	assert!(n <= want, "U61.clean_logs.never_more_files_than_asked_for_are_reclaimed");
+	// whatever the point at which reclamation stops: the files emptied so far are the OLDEST ones, in queue order
+	let mut i = 0;
+	while i < 3 {
+		if i < n {
+			assert!(unsafe { TRUNC_FDS[i] } == 3 + i as i32, "U61.clean_logs.log_files_are_truncated_oldest_first");
+		}
+		i += 1;
+	}
+	if res.is_some() {
+		assert!(n == want, "U61.clean_logs.every_file_asked_for_is_reclaimed");
+		assert!(log.cleanup_queue.read().len() == 3 - want, "U61.clean_logs.files_not_reclaimed_stay_queued");
+		assert!(res == Some(want < 3), "U61.clean_logs.reports_whether_files_are_left");
+		assert!(unsafe { DROPPED_N } == 0, "U61.clean_logs.no_log_file_is_deleted_while_the_pool_has_room");
+	}
+	kani::cover!(res.is_some() && n == 3, "all three reclaimed");
+	kani::cover!(res.is_none() && n == 2, "stopped between two truncations");
+});
